@@ -17,13 +17,13 @@
    where [wf_client] is the discipline checker of LifeSpec.v, which never looks at the heap
    (ghost state: references the client holds + parent each window is attached to).
    It is proved (a) in exactly this form for EVENT-FREE histories (the theorems named _partial), and
-   (b) for histories WITH key events and mouse press / release / wheel events, whose handlers make any
-   calls at any depth (C08_no_fault_events, C08_events_completed), with the client's side stated by the
+   (b) for histories WITH key and mouse events -- press, drag, release, wheel: the whole drag state machine with
+   its directly delivered DRAG_OUTSIDE / DRAG_STOP -- whose handlers make any calls at any depth
+   (C08_no_fault_events, C08_events_completed), with the client's side stated by the
    discipline of LifeSpecEv.v: the same rules, but the destruction of a window takes effect when it
    happens (a window released inside its own handler lives until the dispatch frame lets go), which the
-   checker reads off the library's frame references recorded in the trace.  Still open: the drag state
-   machine (DRAG events are rejected by that discipline), and (b) for the predictive checker of LifeSpec.v
-   that the oracle of the check uses.  Everything else is at full strength: any number of windows, any
+   checker reads off the library's frame references recorded in the trace.  Still open: (b) for the predictive
+   checker of LifeSpec.v that the oracle of the check uses (tested on every case, not proved).  Everything else is at full strength: any number of windows, any
    depth, any order of ref/unref/close, any number of pending restack requests, any fuel (running
    out of fuel is never a normal-looking value; that enough fuel exists is not proved). *)
 From Coq Require Import ZArith List Bool PArith.
@@ -81,12 +81,14 @@ Theorem C08_unref_destroy : forall f, unref_ok f /\ destroy_ok f /\ loop_ok f.
 Proof. exact life_ok. Qed.
 Print Assumptions C08_unref_destroy.
 
-(* after the purge no queued request is about the window or anything below it; no window is touched *)
+(* after the purge no queued request is about the window or anything below it, and the drag source is not the window
+   or anything below it; no window is touched (the root is not among the windows being destroyed) *)
 Theorem C08_purge_complete : forall D fuel w h,
-  hinv D h -> findw h w <> None ->
+  hinv D h -> findw h w <> None -> ~ In root D ->
   hoare (fun h1 => h1 = h) (purge fixed fuel w)
         (fun _ h' => hinv D h' /\ (wins h' = wins h /\ nextw h' = nextw h) /\ unqueued h' w /\
-                     (forall q cq, findq h' q = Some cq -> exists cq0, findq h q = Some cq0 /\ q_win cq = q_win cq0)).
+                     (forall q cq, findq h' q = Some cq -> exists cq0, findq h q = Some cq0 /\ q_win cq = q_win cq0) /\
+                     undragged D h' w).
 Proof. exact purge_spec. Qed.
 Print Assumptions C08_purge_complete.
 
@@ -115,8 +117,8 @@ Print Assumptions C08_copy_bounded.
    + the references held by dispatch frames, parents as the ghost has them", the frames [F] being released innermost
    first with every framed window's parent framed further out -- so that the destruction of a window never consumes a
    reference a frame holds.  Every dispatch function keeps it (S_all_holds: run_op, run_ops, the handler loops,
-   _handle_key, _handle_mouse, their loops over a copy of the children, on_term_mouse), or else the trace has left the
-   discipline. *)
+   _handle_key, _handle_mouse, their loops over a copy of the children, on_term_mouse with the drag state machine and
+   _handle_mouse_at), or else the trace has left the discipline. *)
 Theorem C08_dispatch_invariant : forall f, S_all f.
 Proof. exact S_all_holds. Qed.
 Print Assumptions C08_dispatch_invariant.
@@ -136,6 +138,12 @@ Theorem C08_events_completed : forall fuel l h,
                          (all_dropped_e g = true -> heap_empty h = true).
 Proof. exact events_completed. Qed.
 Print Assumptions C08_events_completed.
+
+Theorem C08_events_drag_nonvacuous : exists h,
+  run_script fixed 80 drag_demo = VOk h /\ wf_trace (tr h) = true /\ heap_empty h = true /\
+  (10 <= length (filter (fun o => match o with OFrameRef _ => true | _ => false end) (tr h)))%nat.
+Proof. exact drag_nonvacuous. Qed.
+Print Assumptions C08_events_drag_nonvacuous.
 
 Theorem C08_events_nonvacuous : exists h,
   run_script fixed 80 ev_demo = VOk h /\ wf_trace (tr h) = true /\ heap_empty h = true /\
